@@ -34,7 +34,7 @@ R = [
     (r"^Document::get_object_mut$", r"unwrap", r"get_mut", "SAFE", "the id was just resolved by get_object()/dereference() on the same map"),
     (r"^Document::get_outlines$", r"unwrap", r"node", "SAFE", "dominated by `node.is_none() -> return`"),
     (r"^Document::get_pages::\{closure#0\}$", r"overflow:Add", r"i,1", "SAFE", "i enumerates yielded pages (< objects.len() <= usize::MAX/size_of object)"),
-    (r"^Document::get_toc::\{closure#[01]\}$", r"bounds", r"len\(x\),[01]", "SAFE", "x is a chunk of chunks_exact(2)/chunks(2) taken after an odd length was rejected", [{'kind': 'dominating', 'cond': '^Ne\\(BitAnd\\(len\\(&\\$\\d+\\),1\\),0\\)$', 'truth': False, 'where': 'parent'}, {'kind': 'dominating', 'cond': '^Lt\\(len\\(&\\$\\d+\\),2\\)$', 'truth': False, 'where': 'parent'}]),
+    (r"^Document::get_toc::\{closure#[01]\}$", r"bounds", r"len\(x\),[01]", "SAFE", "x is a chunk of chunks_exact(2)/chunks(2) taken after an odd length was rejected", [{'kind': 'dominating', 'cond': '^Ne\\(BitAnd\\(len\\(&\\$\\d+\\),1\\),0\\)$', 'truth': False, 'where': 'parent'}]),
     (r"^Encoding::bytes_to_string$", r"overflow", r"", "SAFE", "considered_source_code accumulates at most 4 bytes base 256 (reset when bytes_in_considered_code reaches 4), fits u32", [{'kind': 'exists', 'fn': 'Encoding::bytes_to_string', 'cond': '^Eq\\(\\$\\d+,4\\)$'}]),
     (r"^Encoding::bytes_to_string::\{closure#0\}$", r"op-trait", r"(div|rem)\(it,256\)", "SAFE", "u16 / 256 and % 256 with a constant non-zero divisor"),
     (r"^ObjectStream::new$", r"index:RangeTo", r"numbers.*len", "SAFE", "len = numbers.len() / 2 * 2 <= numbers.len()", [{'kind': 'call-arg', 'fn': 'ObjectStream::new', 'callee': 'ops::Index::index$', 'arg': 1, 'matches': 'RangeTo\\{\\$\\d+\\}'}]),
